@@ -98,6 +98,11 @@ func onlyConstructedBy(p *Prog, r *Report, rule, tname string, allowed map[strin
 				}
 				fa, ok := st.Addr.(*ssa.FieldAddr)
 				if ok && typeShort(deref(fa.X.Type())) == tname {
+					// assembling a fresh value (a local of this function that has not
+					// been published) is construction, not modification of a state
+					if al, isLocal := rootAlloc(fa.X); isLocal && al.Parent() == f {
+						continue
+					}
 					bad++
 					r.Fail(rule, shortName(f)+" stores "+tname+"."+fieldName(fa.X.Type(), fa.Field), p.InstrPos(st),
 						"request-state field written outside the constructors: the key/request the state was created for is no longer pinned")
@@ -329,6 +334,26 @@ func c02Body(p *Prog, r *Report, R1, R2, R3, R4, R5 string) {
 			// the destination element must itself be a fresh buffer of the source's length
 			if src.String() == wantSrc && elementIsFreshCopyTarget(s, fn, cc.Args[0], cc.Args[1]) {
 				found = true
+			}
+		}
+		// or: tokenInputs[i] = <fresh copy of the token input> (e.g. through a helper)
+		for _, b := range fn.Blocks {
+			for _, in := range b.Instrs {
+				st, ok := in.(*ssa.Store)
+				if !ok {
+					continue
+				}
+				ia, ok := st.Addr.(*ssa.IndexAddr)
+				if !ok || s.Of(ia.X).String() != "make(len(param:2))" {
+					continue
+				}
+				i := s.Of(ia.Index).String()
+				w := tokenInputTerm("5", "index(param:2, "+i+")", "param:1", "param:3")
+				v := s.Of(st.Val).String()
+				seen = append(seen, clip(v, 200))
+				if v == "make(len("+w+"), copy("+w+"))" {
+					found = true
+				}
 			}
 		}
 		r.Check(found, R3, shortName(fn)+": tokenInputs[i] = copy of token input(nonce[i])", p.Pos(fn.Pos()),
